@@ -6,6 +6,7 @@ package main
 import (
 	"bufio"
 	"bytes"
+	"compress/gzip"
 	"context"
 	"crypto/ecdsa"
 	"crypto/elliptic"
@@ -41,6 +42,7 @@ type resp struct {
 	Body   string `json:"body"`   // resp: body class
 	APIVer string `json:"api_version,omitempty"`
 	CType  string `json:"ctype,omitempty"`
+	Gzip   bool   `json:"gzip,omitempty"` // the peer honours Accept-Encoding: gzip (as real servers do)
 }
 
 type rec struct {
@@ -259,6 +261,7 @@ func (p *peer) handle(raw net.Conn) {
 	if err != nil {
 		return
 	}
+	acceptsGzip := false
 	for {
 		h, err := br.ReadString('\n')
 		if err != nil {
@@ -266,6 +269,9 @@ func (p *peer) handle(raw net.Conn) {
 		}
 		if h == "\r\n" || h == "\n" {
 			break
+		}
+		if lh := strings.ToLower(h); strings.HasPrefix(lh, "accept-encoding:") && strings.Contains(lh, "gzip") {
+			acceptsGzip = true
 		}
 	}
 	raw.SetReadDeadline(time.Time{})
@@ -333,6 +339,14 @@ func (p *peer) handle(raw net.Conn) {
 		return
 	}
 	b := bodyBytes(p.c.Kind, slot, r.Body)
+	if r.Gzip && acceptsGzip { // like a real server: the content coding the client asked for
+		var zb bytes.Buffer
+		zw := gzip.NewWriter(&zb)
+		zw.Write(b)
+		zw.Close()
+		b = zb.Bytes()
+		head += "Content-Encoding: gzip\r\nVary: Accept-Encoding\r\n"
+	}
 	fmt.Fprintf(conn, "%sContent-Length: %d\r\n\r\n", head, len(b))
 	conn.Write(b)
 	if tc, ok := conn.(*tls.Conn); ok {
@@ -643,6 +657,16 @@ func (g *gen) generate(n int) {
 		for _, slot := range slotsOf(kind) {
 			if slot == "ping_head" {
 				continue
+			}
+			for _, b := range []string{"object", "huge_object"} {
+				c := g.base(kind)
+				c.Class = kind + ":" + slot + "=" + b + "+gzip"
+				r := ok(b)
+				r.Gzip = true
+				c.Slots[slot] = r
+				if kind == "docker" && slot == "ping_get" {
+					c.Slots["ping_head"] = resp{Kind: "resp", Status: 404}
+				}
 			}
 			classes := bodyClasses
 			if kind == "elastic" {
